@@ -431,9 +431,9 @@ func runC17Chain(e *sim.Env) {
 func init() {
 	register(&Prop{
 		ID: "C17", Run: runC17, Quick: 600, Thorough: 6000, Level: "exploration",
-		Rule: "runs 0..95 enumerate, partitioned by their first two operations, every operation sequence of length <= 4 over {create bucket x2, put x12, delete x6, flush, cancel} on MemDB, CacheDB(MemDB), CacheDB(simdisk) (and every sequence of length <= 2, plus length 3 ending in flush/cancel, on Bolt and CacheDB(Bolt)); later runs draw sequences of length 5-200 with crash+reopen over all five backends, or replay a generated chain history over every backend and compare the served views; after every operation Get of every key and the set yielded by Iter are compared with the reference map model; distinct = abstract shape (mode, length bucket, regime, faults); all runs are non-trivial",
-		Real: []string{"chain.MemDB", "chain.CacheDB", "coreutils.BoltChainDB over real bbolt on tmpfs", "chain.DBStore + chain.Manager (history replay)"},
-		Stub: []string{"reference model: simdisk.DB"},
+		Rule:        "runs 0..95 enumerate, partitioned by their first two operations, every operation sequence of length <= 4 over {create bucket x2, put x12, delete x6, flush, cancel} on MemDB, CacheDB(MemDB), CacheDB(simdisk) (and every sequence of length <= 2, plus length 3 ending in flush/cancel, on Bolt and CacheDB(Bolt)); later runs draw sequences of length 5-200 with crash+reopen over all five backends, or replay a generated chain history over every backend and compare the served views; after every operation Get of every key and the set yielded by Iter are compared with the reference map model; distinct = abstract shape (mode, length bucket, regime, faults); all runs are non-trivial",
+		Real:        []string{"chain.MemDB", "chain.CacheDB", "coreutils.BoltChainDB over real bbolt on tmpfs", "chain.DBStore + chain.Manager (history replay)"},
+		Stub:        []string{"reference model: simdisk.DB"},
 		Assumptions: []string{"empty values are excluded (the interface cannot distinguish them from absence)", "iteration order is not part of the contract", "bbolt's own crash atomicity is trusted (crash image = file copy at the last commit)"},
 	})
 }
